@@ -1267,6 +1267,13 @@ class WorkflowConductor(object):
         # If task has items, then use existing staged task entry and reset failed items.
         if task_spec.has_items():
             staged_task = self.workflow_state.get_staged_task(task_id, route)
+
+            # The task is no longer staged if it succeeded, in which case stage it again.
+            if not staged_task:
+                staged_task = self.workflow_state.add_staged_task(
+                    task_id, route, ctxs=task_ctx, prev=task_prev
+                )
+
             for item in staged_task.get("items", []):
                 if reset_items or item["status"] in statuses.ABENDED_STATUSES:
                     item["status"] = statuses.UNSET
